@@ -639,56 +639,143 @@ Proof.
   specialize (Hd x Hin). unfold is_digit in Hd. unfold is_ascii. lia.
 Qed.
 
+(* ---- facts about quoted host names (safe set of _quote_for_host: unreserved + sub-delims) *)
+Definition not_upper (c : Z) : Prop := is_upper c = false.
+Definition dd (c : Z) : bool := is_digit c || (c =? 46).
+
+Lemma quote_ascii safe s q : all_ascii safe = true -> quote safe s = Ok q -> all_ascii q = true.
+Proof.
+  intros Hs Hq. rewrite quote_unfold in Hq. destruct (utf8_encode s) as [b|] eqn:Eb; [|discriminate]. cbn [bind] in Hq. ok_inj Hq.
+  destruct (utf8_encode_bytes_ok _ _ Eb) as [_ Hb]. apply qbytes_ascii; assumption.
+Qed.
+Lemma utf8_encode_cons_nonempty c s b : utf8_encode (c :: s) = Ok b -> b <> [].
+Proof.
+  cbn [utf8_encode]. destruct (utf8_encode_char c) as [bc|] eqn:Ec; [|discriminate]. cbn [bind].
+  destruct (utf8_encode s) as [bs|]; [|discriminate]. cbn [bind]. intros H. ok_inj H.
+  unfold utf8_encode_char in Ec.
+  repeat match type of Ec with (if ?c then _ else _) = _ => destruct c end; try discriminate; ok_inj Ec; discriminate.
+Qed.
+Lemma quote_nonempty safe s q : s <> [] -> quote safe s = Ok q -> q <> [].
+Proof.
+  intros Hne Hq. rewrite quote_unfold in Hq. destruct (utf8_encode s) as [b|] eqn:Eb; [|discriminate]. cbn [bind] in Hq. ok_inj Hq.
+  destruct s as [|c s]; [congruence|]. apply utf8_encode_cons_nonempty in Eb. destruct b as [|x b]; [congruence|].
+  cbn [flat_map]. unfold qbyte at 1. destruct (mem x safe); discriminate.
+Qed.
+Lemma utf8_no_upper h : Forall not_upper h -> forall b, utf8_encode h = Ok b -> Forall not_upper b.
+Proof.
+  induction h as [|c h IH]; intros F b H; cbn [utf8_encode] in H. { ok_inj H. constructor. }
+  inv F. destruct (utf8_encode_char c) as [bc|] eqn:Ec; [|discriminate]. cbn [bind] in H.
+  destruct (utf8_encode h) as [bs|] eqn:Es; [|discriminate]. cbn [bind] in H. ok_inj H.
+  apply Forall_app. split; [|apply IH; auto].
+  unfold not_upper in *. unfold utf8_encode_char, is_surrogate in Ec. unfold is_upper in *.
+  destruct (c <? 0); [discriminate|].
+  destruct (c <? 128) eqn:E1. { ok_inj Ec. repeat constructor. assumption. }
+  destruct (c <? 2048) eqn:E2. { ok_inj Ec. repeat constructor; lia. }
+  destruct (c <? 65536) eqn:E3. { destruct ((55296 <=? c) && (c <=? 57343)); [discriminate|]. ok_inj Ec. repeat constructor; lia. }
+  destruct (c <? 1114112) eqn:E4; [|discriminate]. ok_inj Ec. repeat constructor; lia.
+Qed.
+Lemma lower_before_pct_cons x s : x <> 37 -> lower_before_pct (x :: s) = lower_c x :: lower_before_pct s.
+Proof.
+  intros H. unfold lower_before_pct. cbn [partition]. replace (x =? 37) with false by lia.
+  destruct (partition 37 s) as [[a pc] z]. reflexivity.
+Qed.
+Lemma lower_before_pct_qbytes safe b : mem 37 safe = false -> Forall not_upper b ->
+  lower_before_pct (flat_map (qbyte safe) b) = flat_map (qbyte safe) b.
+Proof.
+  intros H37. induction b as [|x b IH]; intros F; [reflexivity|]. inv F. cbn [flat_map]. unfold qbyte at 1 3.
+  destruct (mem x safe) eqn:Em.
+  - cbn [app]. rewrite lower_before_pct_cons by (intros ->; congruence). rewrite IH by assumption.
+    unfold lower_c. unfold not_upper in *. rewrite H1. reflexivity.
+  - cbn [app]. unfold lower_before_pct. cbn [partition]. rewrite Z.eqb_refl. reflexivity.
+Qed.
+Lemma partition_fst_forallb (P : Z -> bool) c s : forallb P s = true -> forallb P (fst (fst (partition c s))) = true.
+Proof.
+  induction s as [|x s IH]; intros H; [reflexivity|]. cbn [forallb] in H. apply andb_prop in H as [Hx Hs].
+  cbn [partition]. destruct (x =? c); [reflexivity|]. specialize (IH Hs). destruct (partition c s) as [[a h] b].
+  cbn [fst] in *. cbn [forallb]. rewrite Hx, IH. reflexivity.
+Qed.
+Lemma translate_id h : Forall not_upper h -> translate ascii_lowercase h = h.
+Proof. induction 1 as [|c h Hc F IH]; [reflexivity|]. cbn [translate map]. rewrite lookup_lower_id by exact Hc. f_equal. exact IH. Qed.
+Lemma utf8_decode_ascii b : forallb (fun c => (0 <=? c) && (c <? 128)) b = true -> utf8_decode b = Ok b.
+Proof.
+  induction b as [|c b IH]; intros H; [reflexivity|]. cbn [forallb] in H. apply andb_prop in H as [Hc Hb].
+  rewrite utf8_dec1 by lia. rewrite IH by exact Hb. reflexivity.
+Qed.
+Lemma dd_chars_safe : forall c, dd c = true -> mem c quote_for_host_chars = true /\ 0 <= c < 128.
+Proof.
+  intros c H. unfold dd, is_digit in H.
+  assert (E : c = 46 \/ c = 48 \/ c = 49 \/ c = 50 \/ c = 51 \/ c = 52 \/ c = 53 \/ c = 54 \/ c = 55 \/ c = 56 \/ c = 57) by lia.
+  repeat (destruct E as [-> | E]; [split; [reflexivity | lia]|]). subst. split; [reflexivity | lia].
+Qed.
+(* a host of digits and dots is left alone by the host quoting; any other host is quoted into something that is not digits and dots *)
+Lemma quote_host_dd h : forallb dd h = true -> quote quote_for_host_chars h = Ok h.
+Proof.
+  intros H. rewrite quote_unfold.
+  assert (Ha : forallb (fun c => (0 <=? c) && (c <? 128)) h = true).
+  { apply forallb_forall. intros x Hin. rewrite forallb_forall in H. destruct (dd_chars_safe x (H x Hin)). lia. }
+  rewrite utf8_encode_ascii by exact Ha. cbn [bind]. f_equal.
+  induction h as [|c h IH]; [reflexivity|]. cbn [forallb] in H, Ha. apply andb_prop in H as [Hc Hh]. apply andb_prop in Ha as [_ Ha].
+  cbn [flat_map]. unfold qbyte at 1. destruct (dd_chars_safe c Hc) as [-> _]. cbn [app]. f_equal. apply IH; assumption.
+Qed.
+Lemma qbytes_dd_back safe b : forallb dd (flat_map (qbyte safe) b) = true -> flat_map (qbyte safe) b = b /\ forallb dd b = true.
+Proof.
+  induction b as [|x b IH]; intros H; [split; reflexivity|]. cbn [flat_map] in *. rewrite forallb_app in H. apply andb_prop in H as [Hx Hb].
+  destruct (IH Hb) as [I1 I2]. unfold qbyte at 1 in Hx. unfold qbyte at 1. destruct (mem x safe).
+  - cbn [forallb] in Hx. rewrite andb_true_r in Hx. cbn [app forallb]. rewrite I1, Hx, I2. split; reflexivity.
+  - cbn [app forallb] in Hx. apply andb_prop in Hx as [Hx _]. discriminate.
+Qed.
+Lemma quote_dd_back safe h e : quote safe h = Ok e -> forallb dd e = true -> e = h.
+Proof.
+  intros Hq Hd. rewrite quote_unfold in Hq. destruct (utf8_encode h) as [b|] eqn:Eb; [|discriminate]. cbn [bind] in Hq. ok_inj Hq.
+  destruct (qbytes_dd_back _ _ Hd) as [E1 E2]. rewrite E1.
+  pose proof (utf8_decode_encode _ _ Eb) as D. rewrite utf8_decode_ascii in D.
+  - ok_inj D. reflexivity.
+  - apply forallb_forall. intros x Hin. rewrite forallb_forall in E2. destruct (dd_chars_safe x (E2 x Hin)). lia.
+Qed.
+Lemma is_ipv4_literal_quoted h e : quote quote_for_host_chars h = Ok e -> is_ipv4_literal h = Ok false -> is_ipv4_literal e = Ok false.
+Proof.
+  intros Hq Hl. unfold is_ipv4_literal. fold dd. destruct (forallb dd e) eqn:Ed.
+  - pose proof (quote_dd_back _ _ _ Hq Ed) as E. subst e. unfold is_ipv4_literal in Hl. fold dd in Hl. rewrite Ed in Hl. exact Hl.
+  - rewrite andb_false_r. reflexivity.
+Qed.
+Lemma strip_brackets_id t : mem 91 t = false -> mem 93 t = false -> strip_brackets t = t.
+Proof.
+  intros H91 H93. unfold strip_brackets. destruct t as [|c r]; [reflexivity|].
+  rewrite mem_cons in H91. apply orb_false_elim in H91 as [A _]. replace (c =? 91) with false by lia.
+  rewrite <- mem_rev in H93. destruct (rev (c :: r)) as [|y ry]; [reflexivity|].
+  rewrite mem_cons in H93. apply orb_false_elim in H93 as [B _]. replace (y =? 93) with false by lia. reflexivity.
+Qed.
+
 Section Roundtrip.
 Variable ip_address : list Z -> ipres.
 
-(* decomposition of a composed URI whose authority is  <lower-case ASCII reg-name or IPv4 literal>[:port] *)
-Lemma decompose_composed_regular scheme h p path query ptext qtext lit :
+(* Decomposition of a composed URI, for an abstract network location: everything set_request_uri looks at in the netloc
+   is a hypothesis. Instantiated below for quoted host names, reg-names / IPv4 literals and bracketed IPv6 literals. *)
+Lemma decompose_composed scheme netloc hn p remote_hi lit path query ptext qtext uh :
   existsb (beqb scheme) coap_schemes = true ->
-  regular_host h = true -> is_ipv4_literal h = Ok lit -> port_ok p ->
+  netloc <> [] -> all_ascii netloc = true -> brackets_ok ip_address netloc ->
+  mem 47 netloc = false -> mem 63 netloc = false -> mem 35 netloc = false ->
+  mem 9 netloc = false -> mem 10 netloc = false -> mem 13 netloc = false ->
+  hostname_of netloc = Ok (Some hn) -> userinfo_of netloc = (None, None) -> port_of netloc = Ok p ->
+  undecided_remote ip_address scheme netloc = Ok (scheme, remote_hi) ->
+  (if mem 91 netloc then Ok true else is_ipv4_literal hn) = Ok lit ->
+  (if lit then uh = None else exists h', unquote hn = Ok h' /\ uh = Some (translate ascii_lowercase h')) ->
   path <> [[]] -> query <> [[]] -> compose_path path = Ok ptext -> compose_query query = Ok qtext ->
-  set_request_uri ip_address (urlunsplit scheme (h ++ port_text p) ptext qtext) true =
-    Ok (DRequest scheme (h ++ port_text p) (if lit then None else Some h) path query).
+  set_request_uri ip_address (urlunsplit scheme netloc ptext qtext) true = Ok (DRequest scheme remote_hi uh path query).
 Proof.
-  intros Hsch Hreg Hlit Hp Hpd Hqd Ept Eqt.
-  unfold regular_host in Hreg. apply andb_prop in Hreg as [Hne Hreg]. destruct h as [|c0 hr]; [discriminate|]. clear Hne.
-  set (h := c0 :: hr) in *.
-  destruct (regular_host_facts h Hreg) as (Flow & Ftr & Fasc & Fimpl & Fdec & Fenc & Fq).
-  assert (Hno : forall d, regname_char d = false -> mem d h = false) by (intros d; apply regular_no; exact Hreg).
+  intros Hsch Hne Hasc Hbr N47 N63 N35 N9 N10 N13 Hhn Hui Hport Hrem Hlit Huh Hpd Hqd Ept Eqt.
   destruct (path_roundtrip _ Hpd _ Ept) as (Pback & P63 & P35 & Pst).
   destruct (query_roundtrip _ Hqd _ Eqt) as (Qback & Q35).
-  set (netloc := h ++ port_text p).
-  assert (Nn : forall d, regname_char d = false -> is_digit d = false -> d <> 58 -> mem d netloc = false).
-  { intros d A B C. unfold netloc. rewrite mem_app, Hno, port_text_no by auto. reflexivity. }
-  assert (Hi : hostinfo_of netloc = (h, match p with None => None | Some n => Some (print_dec n) end)).
-  { apply hostinfo_of_plain; auto; apply Hno; reflexivity. }
   unfold set_request_uri.
   rewrite urlsplit_urlunsplit; try assumption.
   - cbn [catch_value bind is_nil negb].
     pose proof (coap_schemes_ok _ Hsch) as Hok. destruct scheme as [|s0 sr] eqn:Es; [discriminate|]. cbn [is_nil].
-    rewrite Hsch. cbn [negb].
-    assert (Hpart : partition 37 h = (h, false, [])) by (apply partition_notfound; apply Hno; reflexivity).
-    assert (Hhn : hostname_of netloc = Ok (Some (lower_before_pct h))).
-    { eapply hostname_of_hostinfo; [discriminate | unfold host_ascii_part; rewrite Hpart; exact Fasc | exact Hi]. }
-    rewrite Hhn.
-    unfold lower_before_pct. rewrite Hpart, Flow, app_nil_r. cbn [bind].
-    unfold userinfo_of. rewrite rpartition_notfound by (apply Nn; [reflexivity | reflexivity | lia]).
-    cbn [truthy orb]. rewrite Pback, Qback. cbn [catch_unicode bind].
-    rewrite (port_of_hostinfo netloc h p Hp Hi). cbn [catch_value bind].
-    unfold undecided_remote. rewrite (Nn 91) by (try reflexivity; lia). cbn [catch_value bind fst snd].
-    rewrite Hlit. cbn [bind andb negb]. destruct lit; cbn [negb]; [reflexivity|].
-    unfold unquote. rewrite unquote_parts_ascii by exact Fasc. cbn [rev app]. unfold decode_run. rewrite Fimpl, Fdec.
-    cbn [catch_unicode bind]. rewrite Ftr. reflexivity.
+    rewrite Hsch. cbn [negb]. rewrite Hhn. cbn [bind]. rewrite Hui. cbn [truthy orb].
+    rewrite Pback, Qback. cbn [catch_unicode bind]. rewrite Hport. cbn [catch_value bind]. rewrite Hrem. cbn [catch_value bind fst snd].
+    rewrite Hlit. cbn [bind andb]. destruct lit; cbn [negb].
+    + subst uh. reflexivity.
+    + destruct Huh as (h' & Hu & ->). rewrite Hu. reflexivity.
   - apply coap_schemes_ok. exact Hsch.
-  - unfold netloc, h. discriminate.
-  - unfold netloc, all_ascii. rewrite forallb_app. fold (all_ascii h). fold (all_ascii (port_text p)). rewrite Fasc, port_text_ascii by exact Hp. reflexivity.
-  - unfold brackets_ok. rewrite (Nn 91), (Nn 93) by (try reflexivity; lia). reflexivity.
-  - apply Nn; [reflexivity | reflexivity | lia].
-  - apply Nn; [reflexivity | reflexivity | lia].
-  - apply Nn; [reflexivity | reflexivity | lia].
-  - apply Nn; [reflexivity | reflexivity | lia].
-  - apply Nn; [reflexivity | reflexivity | lia].
-  - apply Nn; [reflexivity | reflexivity | lia].
   - eapply compose_path_no; try exact Ept; [lia | reflexivity | lia | not_hex].
   - eapply compose_path_no; try exact Ept; [lia | reflexivity | lia | not_hex].
   - eapply compose_path_no; try exact Ept; [lia | reflexivity | lia | not_hex].
@@ -697,44 +784,107 @@ Proof.
   - eapply compose_query_no; try exact Eqt; [lia | reflexivity | lia | not_hex].
 Qed.
 
-(* Every non-degenerate option set with a reg-name Uri-Host composes to a URI that decomposes to the same options
-   (the port travels in the remote's hostinfo). Non-degenerate: Uri-Path is not [""], Uri-Query is not [""],
-   all segments are encodable strings, Uri-Host is a non-empty lower-case ASCII reg-name that does not look like an
-   IPv4 literal, the effective port is in 0..65535. *)
+(* network locations  host[:port]  whose host part is free of every delimiter (quoted names, reg-names, IPv4 literals) *)
+Definition plain_host (e : list Z) : Prop :=
+  e <> [] /\ all_ascii e = true /\ lower_before_pct e = e /\
+  Forall (fun d => mem d e = false) [58; 64; 91; 93; 47; 63; 35; 9; 10; 13].
+Lemma plain_host_no e d : plain_host e -> In d [58; 64; 91; 93; 47; 63; 35; 9; 10; 13] -> mem d e = false.
+Proof. intros (_ & _ & _ & F) Hin. rewrite Forall_forall in F. apply F. exact Hin. Qed.
+
+Lemma decompose_composed_plain scheme e p path query ptext qtext lit uh :
+  existsb (beqb scheme) coap_schemes = true -> plain_host e -> port_ok p ->
+  is_ipv4_literal e = Ok lit ->
+  (if lit then uh = None else exists h', unquote e = Ok h' /\ uh = Some (translate ascii_lowercase h')) ->
+  path <> [[]] -> query <> [[]] -> compose_path path = Ok ptext -> compose_query query = Ok qtext ->
+  set_request_uri ip_address (urlunsplit scheme (e ++ port_text p) ptext qtext) true = Ok (DRequest scheme (e ++ port_text p) uh path query).
+Proof.
+  intros Hsch He Hp Hlit Huh Hpd Hqd Ept Eqt.
+  assert (Hno : forall d, In d [58; 64; 91; 93; 47; 63; 35; 9; 10; 13] -> mem d e = false) by (intros d; apply plain_host_no; exact He).
+  destruct He as (Hne & Hasc & Hlow & _).
+  set (netloc := e ++ port_text p).
+  assert (Nn : forall d, In d [58; 64; 91; 93; 47; 63; 35; 9; 10; 13] -> d <> 58 -> mem d netloc = false).
+  { intros d Hin Hd. unfold netloc. rewrite mem_app, (Hno d Hin). rewrite port_text_no; auto.
+    cbn [In] in Hin. unfold is_digit. repeat (destruct Hin as [<- | Hin]; [reflexivity|]). contradiction. }
+  assert (Hi : hostinfo_of netloc = (e, match p with None => None | Some n => Some (print_dec n) end)).
+  { apply hostinfo_of_plain; auto; apply Hno; cbn; auto 12. }
+  assert (Hap : host_ascii_part e = true) by (unfold host_ascii_part; apply partition_fst_forallb; exact Hasc).
+  eapply (decompose_composed scheme netloc e p netloc lit); try eassumption.
+  - unfold netloc. destruct e; [congruence | discriminate].
+  - unfold netloc, all_ascii. rewrite forallb_app. fold (all_ascii e). fold (all_ascii (port_text p)). rewrite Hasc, port_text_ascii by exact Hp. reflexivity.
+  - unfold brackets_ok. rewrite (Nn 91), (Nn 93) by (cbn; auto 12; lia). reflexivity.
+  - apply Nn; cbn; auto 12; lia.
+  - apply Nn; cbn; auto 12; lia.
+  - apply Nn; cbn; auto 12; lia.
+  - apply Nn; cbn; auto 12; lia.
+  - apply Nn; cbn; auto 12; lia.
+  - apply Nn; cbn; auto 12; lia.
+  - rewrite (hostname_of_hostinfo netloc e _ Hne Hap Hi). rewrite Hlow. reflexivity.
+  - unfold userinfo_of. rewrite rpartition_notfound by (apply Nn; cbn; auto 12; lia). reflexivity.
+  - apply (port_of_hostinfo netloc e p Hp Hi).
+  - unfold undecided_remote. rewrite (Nn 91) by (cbn; auto 12; lia). reflexivity.
+  - rewrite (Nn 91) by (cbn; auto 12; lia). exact Hlit.
+Qed.
+
+(* a quoted Uri-Host is such a plain host *)
+Lemma quoted_host_plain h e : h <> [] -> Forall not_upper h -> quote quote_for_host_chars h = Ok e -> plain_host e.
+Proof.
+  intros Hne Hup Hq. split; [eapply quote_nonempty; eauto|]. split; [eapply quote_ascii; eauto; reflexivity|]. split.
+  - rewrite quote_unfold in Hq. destruct (utf8_encode h) as [b|] eqn:Eb; [|discriminate]. cbn [bind] in Hq. ok_inj Hq.
+    apply lower_before_pct_qbytes; [reflexivity | eapply utf8_no_upper; eauto].
+  - repeat (apply Forall_cons; [apply (quote_no_char quote_for_host_chars h e); [reflexivity | lia | not_hex | exact Hq]|]). apply Forall_nil.
+Qed.
+(* a lower-case ASCII reg-name / IPv4 literal is a plain host *)
+Lemma regular_host_plain h : regular_host h = true -> plain_host h.
+Proof.
+  intros Hreg. unfold regular_host in Hreg. apply andb_prop in Hreg as [Hne Hr].
+  destruct (regular_host_facts h Hr) as (Flow & _ & Fasc & _).
+  assert (Hno : forall d, regname_char d = false -> mem d h = false) by (intros d; apply regular_no; exact Hr).
+  split; [destruct h; discriminate|]. split; [exact Fasc|]. split.
+  - unfold lower_before_pct. rewrite partition_notfound by (apply Hno; reflexivity). rewrite Flow, app_nil_r. reflexivity.
+  - repeat (apply Forall_cons; [apply Hno; reflexivity|]). apply Forall_nil.
+Qed.
+
+(* ---- options -> URI -> options, Uri-Host present.
+   Non-degenerate: Uri-Path <> [""], Uri-Query <> [""], all strings encodable; Uri-Host non-empty, without upper-case ASCII
+   letters (6.4 always produces such values), not itself the text of an IP address (else 6.5 keeps it as a literal), and not
+   passing the IPv4-literal test; effective port in 0..65535. Uri-Host may contain ANY other character, reserved, "%" and
+   non-ASCII included: it is percent-encoded (76b5301). *)
 Theorem options_uri_options_name (m : request_opts) h h0 p0 :
   existsb (beqb (r_scheme m)) coap_schemes = true ->
   o_proxy_uri m = None -> o_proxy_scheme m = None ->
-  o_uri_host m = Some h -> regular_host h = true -> is_ipv4_literal h = Ok false ->
+  o_uri_host m = Some h -> h <> [] -> valid_str h = true -> Forall not_upper h ->
+  ip_address (strip_brackets h) = IpBad -> is_ipv4_literal h = Ok false ->
   hostportsplit (r_hostinfo m) = Ok (h0, p0) ->
   let p := match o_uri_port m with Some n => if n =? 0 then p0 else Some n | None => p0 end in
   port_ok p ->
   o_uri_path m <> [[]] -> o_uri_query m <> [[]] ->
   forallb valid_str (o_uri_path m) = true -> forallb valid_str (o_uri_query m) = true ->
-  exists u, get_request_uri m = Ok u /\
-            set_request_uri ip_address u true = Ok (DRequest (r_scheme m) (h ++ port_text p) (Some h) (o_uri_path m) (o_uri_query m)).
+  exists u e, get_request_uri ip_address m = Ok u /\ quote quote_for_host_chars h = Ok e /\
+            set_request_uri ip_address u true = Ok (DRequest (r_scheme m) (e ++ port_text p) (Some h) (o_uri_path m) (o_uri_query m)).
 Proof.
-  intros Hsch Hpu Hps Hh Hreg Hlit Hsplit p Hp Hpd Hqd Hpv Hqv.
+  intros Hsch Hpu Hps Hh Hne Hval Hup Hip Hlit Hsplit p Hp Hpd Hqd Hpv Hqv.
   destruct (compose_path_total _ Hpv) as (ptext & Ept). destruct (compose_query_total _ Hqv) as (qtext & Eqt).
-  assert (Enet : compose_netloc m = Ok (h ++ port_text p)).
-  { pose proof Hreg as Hreg'. unfold regular_host in Hreg'. apply andb_prop in Hreg' as [Hne Hr]. destruct h as [|c0 hr]; [discriminate|].
-    destruct (regular_host_facts _ Hr) as (_ & _ & _ & _ & _ & Fenc & Fq).
-    unfold compose_netloc. rewrite Hh, Hsplit. cbn [bind]. fold p.
-    rewrite quote_nonascii_unfold, Fenc. cbn [bind]. rewrite Fq.
-    apply hostportjoin_plain. apply (regular_no _ _ Hr). reflexivity. }
-  exists (urlunsplit (r_scheme m) (h ++ port_text p) ptext qtext). split.
+  destruct (quote_total quote_for_host_chars h Hval) as (e & He).
+  pose proof (quoted_host_plain h e Hne Hup He) as Hplain.
+  assert (Enet : compose_netloc ip_address m = Ok (e ++ port_text p)).
+  { unfold compose_netloc. rewrite Hh, Hsplit. cbn [bind]. fold p. destruct h as [|c0 hr]; [congruence|].
+    unfold escape_host. rewrite Hip, He. cbn [bind]. apply hostportjoin_plain. apply (plain_host_no e 58 Hplain). cbn; auto. }
+  exists (urlunsplit (r_scheme m) (e ++ port_text p) ptext qtext), e. split; [|split; [exact He|]].
   { unfold get_request_uri. rewrite Hpu, Hps, Enet, Eqt, Ept. reflexivity. }
-  apply (decompose_composed_regular _ _ _ _ _ _ _ false); assumption.
+  eapply decompose_composed_plain; try eassumption.
+  - eapply is_ipv4_literal_quoted; eauto.
+  - cbn iota. exists h. split; [apply (unquote_quote quote_for_host_chars h e); [reflexivity | reflexivity | exact He] | rewrite translate_id by exact Hup; reflexivity].
 Qed.
 
-(* The same without Uri-Host / Uri-Port options, the authority being the remote's hostinfo  host[:port]  with a
-   lower-case ASCII reg-name or IPv4 literal: an IPv4 literal is NOT sent as Uri-Host, a name is. *)
+(* ---- the authority taken from the remote (no Uri-Host / Uri-Port): host[:port] with a lower-case ASCII reg-name or an
+   IPv4 literal: an IPv4 literal is NOT sent as Uri-Host, a name is. *)
 Theorem options_uri_options_hostinfo (m : request_opts) h p lit :
   existsb (beqb (r_scheme m)) coap_schemes = true ->
   o_proxy_uri m = None -> o_proxy_scheme m = None -> o_uri_host m = None -> o_uri_port m = None ->
   r_hostinfo m = h ++ port_text p -> regular_host h = true -> is_ipv4_literal h = Ok lit -> port_ok p ->
   o_uri_path m <> [[]] -> o_uri_query m <> [[]] ->
   forallb valid_str (o_uri_path m) = true -> forallb valid_str (o_uri_query m) = true ->
-  exists u, get_request_uri m = Ok u /\
+  exists u, get_request_uri ip_address m = Ok u /\
             set_request_uri ip_address u true =
               Ok (DRequest (r_scheme m) (r_hostinfo m) (if lit then None else Some h) (o_uri_path m) (o_uri_query m)).
 Proof.
@@ -742,28 +892,109 @@ Proof.
   destruct (compose_path_total _ Hpv) as (ptext & Ept). destruct (compose_query_total _ Hqv) as (qtext & Eqt).
   exists (urlunsplit (r_scheme m) (h ++ port_text p) ptext qtext). split.
   { unfold get_request_uri, compose_netloc. rewrite Hpu, Hps, Hh, Hport, Eqt, Ept, Hhi. reflexivity. }
-  rewrite Hhi. apply decompose_composed_regular; assumption.
+  rewrite Hhi. eapply decompose_composed_plain; try eassumption; [apply regular_host_plain; exact Hreg|].
+  destruct lit; [reflexivity|]. unfold regular_host in Hreg. apply andb_prop in Hreg as [_ Hr].
+  destruct (regular_host_facts h Hr) as (_ & Ftr & Fasc & Fimpl & Fdec & _).
+  exists h. split; [|rewrite Ftr; reflexivity].
+  unfold unquote. rewrite unquote_parts_ascii by exact Fasc. cbn [rev app]. unfold decode_run. rewrite Fimpl. exact Fdec.
 Qed.
 
-(* URI -> options -> URI -> options: when the first decomposition yields a regular authority, composing and decomposing
-   again is the identity on the options (and the composed URI is a normal form: it composes to itself). *)
-Theorem uri_options_uri_normal scheme h p path query :
-  existsb (beqb scheme) coap_schemes = true -> regular_host h = true -> is_ipv4_literal h = Ok false -> port_ok p ->
-  path <> [[]] -> query <> [[]] -> forallb valid_str path = true -> forallb valid_str query = true ->
-  let d := DRequest scheme (h ++ port_text p) (Some h) path query in
-  exists u, get_request_uri (opts_of d) = Ok u /\ set_request_uri ip_address u true = Ok d.
+(* ---- bracketed IPv6 literals with zone identifiers. [t] is the text str(ipaddress.ip_address(..)) produces. What the proof
+   needs to know about it: it is a fixed point of ip_address, contains ":" and none of the characters that delimit it inside
+   a URI, is ASCII and lower-case up to the zone, and does not start with "v". *)
+Definition ip6_text_ok (t : list Z) : Prop :=
+  ip_address t = Ip6 t /\ mem 58 t = true /\ all_ascii t = true /\ lower_before_pct t = t /\ startswith t [118] = false /\
+  Forall (fun d => mem d t = false) [64; 91; 93; 47; 63; 35; 9; 10; 13].
+Theorem options_uri_options_ip6 (m : request_opts) t p0 :
+  existsb (beqb (r_scheme m)) coap_schemes = true ->
+  o_proxy_uri m = None -> o_proxy_scheme m = None -> o_uri_host m = None ->
+  r_hostinfo m = 91 :: t ++ 93 :: port_text p0 -> ip6_text_ok t -> port_ok p0 ->
+  let p := match o_uri_port m with Some n => if n =? 0 then p0 else Some n | None => p0 end in
+  port_ok p ->
+  o_uri_path m <> [[]] -> o_uri_query m <> [[]] ->
+  forallb valid_str (o_uri_path m) = true -> forallb valid_str (o_uri_query m) = true ->
+  exists u, get_request_uri ip_address m = Ok u /\
+            set_request_uri ip_address u true = Ok (DRequest (r_scheme m) (91 :: t ++ 93 :: port_text p) None (o_uri_path m) (o_uri_query m)).
 Proof.
-  intros Hsch Hreg Hlit Hp Hpd Hqd Hpv Hqv d.
-  assert (Hs : hostportsplit (h ++ port_text p) = Ok (Some (lower_before_pct h), p)).
-  { pose proof Hreg as Hreg'. unfold regular_host in Hreg'. apply andb_prop in Hreg' as [Hne Hr].
-    destruct (regular_host_facts _ Hr) as (_ & _ & Fasc & _).
-    assert (Hno : forall d, regname_char d = false -> mem d h = false) by (intros d0; apply regular_no; exact Hr).
-    apply hostportsplit_of_hostinfo; auto.
-    - destruct h; [discriminate | discriminate].
-    - unfold host_ascii_part. rewrite partition_notfound by (apply Hno; reflexivity). exact Fasc.
-    - apply hostinfo_of_plain; auto; apply Hno; reflexivity. }
-  destruct (options_uri_options_name (opts_of d) h _ _ Hsch eq_refl eq_refl eq_refl Hreg Hlit Hs Hp Hpd Hqd Hpv Hqv) as (u & Hu & Hd).
-  exists u. split; [exact Hu | exact Hd].
+  intros Hsch Hpu Hps Hh Hhi (Hfix & H58 & Hasc & Hlow & Hv & Hno) Hp0 p Hp Hpd Hqd Hpv Hqv.
+  rewrite Forall_forall in Hno.
+  assert (N : forall d, In d [64; 91; 93; 47; 63; 35; 9; 10; 13] -> mem d t = false) by exact Hno.
+  assert (Hap : host_ascii_part t = true) by (unfold host_ascii_part; apply partition_fst_forallb; exact Hasc).
+  assert (Htne : t <> []) by (intros ->; discriminate).
+  assert (Hsplit : forall q, port_ok q -> hostportsplit (91 :: t ++ 93 :: port_text q) = Ok (Some t, q)).
+  { intros q Hq. rewrite <- Hlow at 2. apply hostportsplit_of_hostinfo; auto. apply hostinfo_of_bracketed; auto; apply N; cbn; auto 12. }
+  destruct (compose_path_total _ Hpv) as (ptext & Ept). destruct (compose_query_total _ Hqv) as (qtext & Eqt).
+  set (netloc := 91 :: t ++ 93 :: port_text p).
+  assert (Enet : compose_netloc ip_address m = Ok netloc).
+  { unfold compose_netloc. rewrite Hh. destruct (o_uri_port m) as [n|] eqn:Eport.
+    - rewrite Hhi, (Hsplit p0 Hp0). cbn [bind]. fold p.
+      unfold escape_host. rewrite strip_brackets_id by (apply N; cbn; auto 12). rewrite Hfix. cbn [bind].
+      apply hostportjoin_bare6; [exact H58 | apply N; cbn; auto 12].
+    - unfold netloc, p. rewrite Hhi. reflexivity. }
+  exists (urlunsplit (r_scheme m) netloc ptext qtext). split.
+  { unfold get_request_uri. rewrite Hpu, Hps, Enet, Eqt, Ept. reflexivity. }
+  assert (Nn : forall d, In d [64; 47; 63; 35; 9; 10; 13] -> mem d netloc = false).
+  { intros d Hin. unfold netloc. rewrite mem_cons, mem_app, mem_cons, N, port_text_no; auto.
+    - cbn [In] in Hin. repeat (destruct Hin as [<- | Hin]; [reflexivity|]). contradiction.
+    - cbn [In] in Hin. unfold is_digit. repeat (destruct Hin as [<- | Hin]; [reflexivity|]). contradiction.
+    - cbn [In] in Hin. repeat (destruct Hin as [<- | Hin]; [lia|]). contradiction.
+    - cbn [In] in Hin |- *. repeat (destruct Hin as [<- | Hin]; [auto 12|]). contradiction. }
+  assert (M91 : mem 91 netloc = true) by (unfold netloc; rewrite mem_cons; reflexivity).
+  assert (M93 : mem 93 netloc = true) by (unfold netloc; rewrite mem_cons, mem_app, (mem_cons 93 93); cbn; rewrite orb_true_r; reflexivity).
+  assert (Hi : hostinfo_of netloc = (t, match p with None => None | Some n => Some (print_dec n) end))
+    by (apply hostinfo_of_bracketed; auto; apply N; cbn; auto 12).
+  eapply (decompose_composed (r_scheme m) netloc t p netloc true); try eassumption.
+  - unfold netloc. discriminate.
+  - unfold netloc, all_ascii. cbn [forallb]. rewrite forallb_app. cbn [forallb]. fold (all_ascii t). fold (all_ascii (port_text p)).
+    rewrite Hasc, port_text_ascii by exact Hp. reflexivity.
+  - unfold brackets_ok. rewrite M91, M93. cbn [andb negb orb].
+    unfold netloc. change (91 :: t ++ 93 :: port_text p) with ([] ++ 91 :: (t ++ 93 :: port_text p)).
+    rewrite (partition_found 91) by reflexivity. cbn [snd]. rewrite (partition_found 93) by (apply N; cbn; auto 12). cbn [fst].
+    unfold check_bracketed_host. rewrite Hv, Hfix. reflexivity.
+  - apply Nn; cbn; auto 12.
+  - apply Nn; cbn; auto 12.
+  - apply Nn; cbn; auto 12.
+  - apply Nn; cbn; auto 12.
+  - apply Nn; cbn; auto 12.
+  - apply Nn; cbn; auto 12.
+  - rewrite (hostname_of_hostinfo netloc t _ Htne Hap Hi). rewrite Hlow. reflexivity.
+  - unfold userinfo_of. rewrite rpartition_notfound by (apply Nn; cbn; auto 12). reflexivity.
+  - apply (port_of_hostinfo netloc t p Hp Hi).
+  - unfold undecided_remote. rewrite M91. unfold netloc at 1. rewrite (Hsplit p Hp). cbn [bind]. rewrite Hfix.
+    rewrite hostportjoin_bare6 by (auto; apply N; cbn; auto 12). reflexivity.
+  - rewrite M91. reflexivity.
+  - reflexivity.
+Qed.
+
+(* ---- distinct resources never collapse: two non-degenerate option sets (Uri-Host present) that compose to the same URI
+   have the same scheme, Uri-Host, effective port, Uri-Path and Uri-Query *)
+Lemma port_text_inj p q : port_ok p -> port_ok q -> port_text p = port_text q -> p = q.
+Proof.
+  destruct p as [n|], q as [k|]; cbn; intros Hp Hq H; try discriminate; [|reflexivity].
+  injection H as H. unfold print_dec in H. replace (n <? 0) with false in H by lia. replace (k <? 0) with false in H by lia.
+  f_equal. rewrite <- (parse_print_nat_dec n), <- (parse_print_nat_dec k) by lia. rewrite H. reflexivity.
+Qed.
+Theorem compose_injective (m1 m2 : request_opts) h1 h2 a1 b1 a2 b2 u :
+  (forall (m : request_opts) h h0 p0, m = m1 /\ h = h1 /\ h0 = a1 /\ p0 = b1 \/ m = m2 /\ h = h2 /\ h0 = a2 /\ p0 = b2 ->
+     existsb (beqb (r_scheme m)) coap_schemes = true /\ o_proxy_uri m = None /\ o_proxy_scheme m = None /\
+     o_uri_host m = Some h /\ h <> [] /\ valid_str h = true /\ Forall not_upper h /\
+     ip_address (strip_brackets h) = IpBad /\ is_ipv4_literal h = Ok false /\ hostportsplit (r_hostinfo m) = Ok (h0, p0) /\
+     port_ok (match o_uri_port m with Some n => if n =? 0 then p0 else Some n | None => p0 end) /\
+     o_uri_path m <> [[]] /\ o_uri_query m <> [[]] /\
+     forallb valid_str (o_uri_path m) = true /\ forallb valid_str (o_uri_query m) = true) ->
+  get_request_uri ip_address m1 = Ok u -> get_request_uri ip_address m2 = Ok u ->
+  r_scheme m1 = r_scheme m2 /\ h1 = h2 /\ o_uri_path m1 = o_uri_path m2 /\ o_uri_query m1 = o_uri_query m2 /\
+  match o_uri_port m1 with Some n => if n =? 0 then b1 else Some n | None => b1 end =
+  match o_uri_port m2 with Some n => if n =? 0 then b2 else Some n | None => b2 end.
+Proof.
+  intros Hnd U1 U2.
+  destruct (Hnd m1 h1 a1 b1 (or_introl (conj eq_refl (conj eq_refl (conj eq_refl eq_refl))))) as (A1 & A2 & A3 & A4 & A5 & A6 & A7 & A8 & A9 & A10 & A11 & A12 & A13 & A14 & A15).
+  destruct (Hnd m2 h2 a2 b2 (or_intror (conj eq_refl (conj eq_refl (conj eq_refl eq_refl))))) as (B1 & B2 & B3 & B4 & B5 & B6 & B7 & B8 & B9 & B10 & B11 & B12 & B13 & B14 & B15).
+  destruct (options_uri_options_name m1 h1 a1 b1 A1 A2 A3 A4 A5 A6 A7 A8 A9 A10 A11 A12 A13 A14 A15) as (u1 & e1 & G1 & Q1 & D1).
+  destruct (options_uri_options_name m2 h2 a2 b2 B1 B2 B3 B4 B5 B6 B7 B8 B9 B10 B11 B12 B13 B14 B15) as (u2 & e2 & G2 & Q2 & D2).
+  rewrite U1 in G1. rewrite U2 in G2. apply Ok_inj in G1. apply Ok_inj in G2. subst u1 u2.
+  rewrite D1 in D2. apply Ok_inj in D2. injection D2 as Es Ehi Eh Ep Eq. subst h2.
+  rewrite Q1 in Q2. apply Ok_inj in Q2. subst e2. apply app_inv_head in Ehi. apply port_text_inj in Ehi; auto.
 Qed.
 End Roundtrip.
 
@@ -836,7 +1067,7 @@ Qed.
 
 (* a URI of any other scheme is kept verbatim as Proxy-Uri and composed back verbatim *)
 Theorem proxy_roundtrip uri flag u : set_request_uri ip_address uri flag = Ok (DProxy u) ->
-  u = uri /\ get_request_uri (opts_of (DProxy u)) = Ok uri.
+  u = uri /\ get_request_uri ip_address (opts_of (DProxy u)) = Ok uri.
 Proof.
   unfold set_request_uri. intros H.
   destruct (urlsplit ip_address uri) as [[[[[scheme netloc] path] query] fragment]|e0]; [|destruct e0; discriminate].
@@ -865,15 +1096,15 @@ Definition mk_opts scheme hostinfo host path query : request_opts :=
 Definition coap := [99; 111; 97; 112].
 (* Uri-Path [""] and [] compose to the same URI coap://h/ ; so do Uri-Query [""] and [] *)
 Lemma degenerate_path_collapses :
-  get_request_uri (mk_opts coap [104] None [[]] []) = get_request_uri (mk_opts coap [104] None [] []) /\
-  get_request_uri (mk_opts coap [104] None [] [[]]) = get_request_uri (mk_opts coap [104] None [] []).
+  get_request_uri no_ip (mk_opts coap [104] None [[]] []) = get_request_uri no_ip (mk_opts coap [104] None [] []) /\
+  get_request_uri no_ip (mk_opts coap [104] None [] [[]]) = get_request_uri no_ip (mk_opts coap [104] None [] []).
 Proof. split; vm_compute; reflexivity. Qed.
-(* finding: coap://a%2Fb/ -> Uri-Host "a/b" -> coap://a/b/ -> Uri-Host "a", Uri-Path ["b"; ""] *)
-Lemma host_not_escaped_refuted :
+(* repaired (76b5301): coap://a%2Fb/ -> Uri-Host "a/b" -> coap://a%2Fb/ -> the same options *)
+Lemma host_escaped_now :
   let u := coap ++ [58; 47; 47; 97; 37; 50; 70; 98; 47] in
-  exists d u' d', set_request_uri no_ip u true = Ok d /\ get_request_uri (opts_of d) = Ok u' /\
-                  set_request_uri no_ip u' true = Ok d' /\ d <> d'.
-Proof. cbv zeta. eexists. eexists. eexists. split; [vm_compute; reflexivity|]. split; [vm_compute; reflexivity|]. split; [vm_compute; reflexivity|]. discriminate. Qed.
+  let d := DRequest coap [97; 37; 50; 70; 98] (Some [97; 47; 98]) [] [] in
+  set_request_uri no_ip u true = Ok d /\ get_request_uri no_ip (opts_of d) = Ok u.
+Proof. cbv zeta. split; vm_compute; reflexivity. Qed.
 (* repaired (1c4d498, 9bbf9d1, 0da23bc): the former bare-ValueError inputs are MalformedUrlError / accepted as a name now,
    and an IPv6 literal after an empty user info is no longer sent as Uri-Host *)
 Lemma ipvfuture_now_malformed :
